@@ -890,7 +890,7 @@ import os as _os
 FSBASE = _os.path.join(_os.path.dirname(_os.path.dirname(_os.path.abspath(__file__))), ".work", "fstree")
 FSROOT = FSBASE + "/parent/root"
 PSEGS = ["in.txt", "sub", "deep.txt", ".", "..", "", "%2e", "%2E%2e", "%252e", "%252e%252e", "%2f", "%252f", "..%2f", "%2e%2e%2f", "rootx", "secret.txt",
-         ":", "%3A", "%3a%2f", "%253A%252F", "qt-project.org",
+         ":", "%3A", "%3a%2f", "%253A%252F", "res", "canary.txt",
          "s.txt", "root", "parent", "nonexistent", "a&b<c>.txt", "a%26b%3Cc%3E.txt", ".hidden", "big.bin", "empty.txt", "..%00", "%00", "....", ". ."]
 
 
@@ -913,7 +913,7 @@ def gen_C07(rng, count, tier):
         yield ("fs", "root:%s preroot:%s warm:%s setroot %s" % (hx(FSROOT.encode()), hx(pre.encode()), hx(p1.encode()),
                                                                 fs_events(("GET %s HTTP/1.1\r\n\r\n" % p1).encode())))
     # names that are absolute for Qt without starting with a slash (the resource system)
-    for t in ("/:/", "/:/qt-project.org", "/%3A/", "/%3a%2fqt-project.org", "/:", "/sub/:/", "/%253A%252F"):
+    for t in ("/:/", "/:/res", "/:/res/canary.txt", "/%3A/", "/%3a%2fres%2fcanary.txt", "/:", "/sub/:/", "/%253A%252F", "/%253A%252Fres"):
         n += 1
         yield ("fs", "root:%s %s" % (hx(FSROOT.encode()), fs_events(("GET %s HTTP/1.1\r\n\r\n" % t).encode())))
     # exhaustive: all paths of up to 3 segments over a reduced alphabet (quick) / 4 (thorough)
